@@ -270,3 +270,9 @@ func SortedKeys[V any](m map[string]V) []string {
 	sort.Strings(ks)
 	return ks
 }
+
+// Mix64Str is a short stable hash of a string (for abstract traces).
+func Mix64Str(x string) string {
+	h := sha256.Sum256([]byte(x))
+	return hex.EncodeToString(h[:6])
+}
